@@ -175,4 +175,66 @@ example : (match photonAccess f5 (initObj 0 240) .red with
   intro c ch hc
   cases c <;> simp [File.chan, f5] at hc <;> subst hc <;> exact ⟨by decide, ⟨3, by decide⟩⟩
 
+/-- **repair_not_inherited_witness** (kernel-checked; the restriction of `purity_after_repair_partial` to objects derived
+    AFTER the photon-count access is necessary).  On the F5 kymograph: a copy made BEFORE `get_image("red")` keeps the nominal
+    start 0 and a line time computed from it (20 ns), the source is repaired to start 50 (line time 60 ns), and a copy made
+    AFTER the access starts at 50 — two copies of one object differ by when they were made, and every twin answers 0 / 20 ns. -/
+theorem repair_not_inherited_witness :
+    run f5 0 240 [.d 0 .copy, .q 0 (.prim (.image .red)), .q 0 .start, .q 1 .start, .q 1 (.prim .lineTime),
+        .q 0 (.prim .lineTime), .d 0 .copy, .q 2 .start]
+      = [.static [0] 0, .at (.image .red) 50 240, .int 50, .int 0, .at .lineTime 0 240, .at .lineTime 50 240, .static [6] 0,
+          .int 50]
+    ∧ freshAll f5 0 240 [.d 0 .copy, .q 0 (.prim (.image .red)), .q 0 .start, .q 1 .start, .q 1 (.prim .lineTime),
+        .q 0 (.prim .lineTime), .d 0 .copy, .q 2 .start]
+      = [.static [0] 0, .at (.image .red) 50 240, .int 0, .int 0, .at .lineTime 0 240, .at .lineTime 0 240, .static [6] 0,
+          .int 0] := by
+  decide +kernel
+
+/-! ## clause 3: the arrays handed out cannot alter cached state (buffer model `Verif.C19.Alias`) -/
+
+open Alias in
+/-- **alias_refines.**  For every image width, every content of the source planes / timestamps and EVERY history of array
+    requests (`get_image(colour)`, `timestamps`, `get_image("rgb")`), in-place writes through ANY array handed out so far,
+    crops, flips, position down-samplings and copies (of derived objects too), the machine with buffers, views on the
+    parent's memoised array, WRITEABLE flags and memo tables (`runA`) answers step by step what the value semantics
+    (`runS`: no memory, no tables, every answer recomputed from the source values through the transformations that made
+    the object; a write is refused exactly on the arrays that came out of a memoised method) answers. -/
+theorem alias_refines (cols : Nat) (src : Key → List Int) (ops : List AOp) :
+    (runA cols src initSt ops).2 = (runS cols src initSp ops).2 :=
+  (runA_sim cols src ops initSt initSp (Inv_init cols src)).2
+
+open Alias in
+/-- **alias_inv.**  In every state the machine reaches, every array in a memo table is read-only and reads exactly the
+    values the value semantics computes for its object, and no WRITEABLE array that was ever handed out reads a buffer
+    that an array in a memo table reads. -/
+theorem alias_inv (cols : Nat) (src : Key → List Int) (ops : List AOp) :
+    CacheInv cols src (runA cols src initSt ops).1 (runS cols src initSp ops).1.paths
+      ∧ OutInv (runA cols src initSt ops).1 :=
+  ⟨(runA_sim cols src ops initSt initSp (Inv_init cols src)).1.cache,
+    (runA_sim cols src ops initSt initSp (Inv_init cols src)).1.out⟩
+
+open Alias in
+/-- **alias_writes_invisible.**  Clause 3 as the property words it: the answers a history gives to its requests and
+    derivations are the answers the same history gives with every write attempt left out. -/
+theorem alias_writes_invisible (cols : Nat) (src : Key → List Int) (ops : List AOp) :
+    dropWrites ops (runA cols src initSt ops).2 = (runA cols src initSt (ops.filter fun o => !o.isWrite)).2 := by
+  rw [alias_refines, alias_refines, runS_dropWrites]
+
+open Alias in
+/-- the statements are not vacuous (evaluated): writes through the memoised plane and through the crop (a VIEW of it) are
+    refused, the write through the full colour image is accepted and changes a buffer (3rd buffer, first element 77), and
+    the planes asked afterwards still read the source values; the flipped object shares the source's buffer 0 -/
+example :
+    let src : Key → List Int := fun k => match k with
+      | .img .red => [1, 2, 3, 4, 5, 6] | .img .green => [0, 0, 0, 0, 0, 0] | .img .blue => [9, 8, 7, 6, 5, 4]
+      | .ts => [10, 20, 30, 40, 50, 60]
+    let ops : List AOp := [.get 0 (.img .red), .write 0 0 99, .view 0 (.crop 1 3), .get 1 (.img .red), .write 1 0 99,
+      .rgb 1, .write 2 0 77, .get 1 (.img .red), .view 0 .flip, .get 2 (.img .red), .get 2 .ts]
+    (runA 2 src initSt ops).2 = [.arr [1, 2, 3, 4, 5, 6] false, .refused, .made, .arr [3, 4, 5, 6] false, .refused,
+        .arr [3, 0, 7, 4, 0, 6, 5, 0, 5, 6, 0, 4] true, .written, .arr [3, 4, 5, 6] false, .made,
+        .arr [5, 6, 3, 4, 1, 2] false, .arr [10, 20, 30, 40, 50, 60] false]
+      ∧ ((runA 2 src initSt ops).1.mem.map fun b => b.headD 0) = [1, 0, 9, 77, 10]
+      ∧ ((runA 2 src initSt ops).1.outs.map fun a => a.buf) = [0, 0, 3, 0, 0, 4] := by
+  decide +kernel
+
 end Verif.C19
